@@ -53,14 +53,19 @@ PY = tool.PY
 # configurations
 # ---------------------------------------------------------------------------------------------------------------------
 CPP_STDS = ["c++14", "c++17", "c++20", "c++17-pmr"]
-GEN_ONLY_STDS = ["cetl++14-17"]  # submodules/CETL is empty in this sandbox: cannot be compiled
+GEN_ONLY_STDS: typing.List[str] = []
+# submodules/CETL is empty in this sandbox.  The flavour is compiled against a stand-in (harness/standin/cetl/...) that
+# provides what the options of the shorthand name: a vector-like container constructed from (max size, allocator) and an
+# allocator template that is not default constructible.  Only diagnostics located in generated files count.
+STANDIN_STDS = ["cetl++14-17"]
+STANDIN_DIR = str(core.VERIF / "harness" / "standin")
 
 
 def all_configs() -> typing.List[dict]:
     out = []
     for omit in (False, True):
         out.append({"target": "c", "std": "c11", "omit": omit})
-        for s in CPP_STDS + GEN_ONLY_STDS:
+        for s in CPP_STDS + STANDIN_STDS + GEN_ONLY_STDS:
             out.append({"target": "cpp", "std": s, "omit": omit})
         out.append({"target": "py", "std": "py", "omit": omit})
     return out
@@ -76,6 +81,8 @@ def compile_modes(cfg: dict) -> typing.List[dict]:
         return [{"mode": "as-c11", "cc": "gcc", "x": "c", "stdflag": "c11"}, {"mode": "in-c++14-tu", "cc": "g++", "x": "c++", "stdflag": "c++14"}]
     if cfg["target"] == "cpp" and cfg["std"] in CPP_STDS:
         return [{"mode": "as-" + cfg["std"], "cc": "g++", "x": "c++", "stdflag": "c++17" if cfg["std"] == "c++17-pmr" else cfg["std"]}]
+    if cfg["target"] == "cpp" and cfg["std"] in STANDIN_STDS:
+        return [{"mode": "as-c++14-with-cetl-stand-in", "cc": "g++", "x": "c++", "stdflag": "c++14", "isystem": [STANDIN_DIR]}]
     return []
 
 
@@ -296,7 +303,7 @@ def closure_scan_c(cfg: dict, gen: dict) -> typing.List[dict]:
                 continue
             if any(os.path.exists(os.path.join(d, inc)) for d in sysdirs):
                 continue
-            if inc.startswith(EXTERNAL_BY_DESIGN) and cfg["std"] in GEN_ONLY_STDS:
+            if inc.startswith(EXTERNAL_BY_DESIGN) and cfg["std"] in GEN_ONLY_STDS + STANDIN_STDS:
                 continue
             fails.append({"cause": "closure", "detail": include_kind(inc), "file": rel, "what": f"{rel} has `#include {kind}{inc}{'>' if kind == '<' else kind}` but no involved root namespace generates that file and it is not a system header"})
     return fails
@@ -387,7 +394,8 @@ def empty_cwd() -> str:
 
 def compile_cmd(mode: dict, outdirs: typing.List[str], extra: typing.Sequence[str] = ()) -> typing.List[str]:
     cflags, cxxflags = project_flags()
-    return [mode["cc"], f"-std={mode['stdflag']}", "-fsyntax-only", *(cflags if mode["x"] == "c" else cxxflags), *extra, *[f"-I{d}" for d in outdirs], "-x", mode["x"], "-"]
+    sysinc = [a for d in mode.get("isystem", ()) for a in ("-isystem", d)]
+    return [mode["cc"], f"-std={mode['stdflag']}", "-fsyntax-only", *(cflags if mode["x"] == "c" else cxxflags), *extra, *[f"-I{d}" for d in outdirs], *sysinc, "-x", mode["x"], "-"]
 
 
 def run_compiler(mode: dict, outdirs: typing.List[str], hdr: str, extra: typing.Sequence[str] = ()) -> typing.Tuple[int, typing.List[dict], str]:
@@ -564,6 +572,18 @@ def classify_cc(d: dict, cfg: dict, mode: dict, names: dict, cache: dict, outdir
         for n in sorted(names["nonplain"], key=len, reverse=True):
             if len(n) > 1 and n in m.group(1) and m.group(1) != n:
                 return {"cause": "name|member-declared-and-used-under-different-stropped-names", "detail": m.group(1).replace(n, "<name>", 1), "scope": ()}
+    if target == "cpp" and cfg["std"] in STANDIN_STDS and f.startswith(STANDIN_DIR):
+        # located inside the stand-in: cannot be told apart from a gap of the stand-in -> counted, never reported
+        return {"cause": "standin-inconclusive", "detail": "", "scope": ("std",)}
+    if target == "cpp" and cfg["std"] in STANDIN_STDS:
+        # allocator_is_default_constructible: false -- composite types get no default constructor, and the container of the
+        # flavour has none either; generated code that value-initialises such a member cannot compile.  Decided from the
+        # generated code alone (the stand-in only has to lack a default constructor, which is what the option states).
+        nodef = re.search(r"no matching function for call to '[\w:<>, ]+::(\w+)\(\)'", msg)
+        if nodef and (re.search(r"\bnew\s*\(", line) or "do_emplace" in line or re.search(r"\bset_\w+\(\)", line)):
+            return {"cause": "allocator-not-default-constructible", "detail": "union-option-default-constructed-by-deserialize", "scope": ("std",)}
+        if re.search(r"could not convert '<brace-enclosed initializer list>\(\)'|no matching function for call to '[\w:<>, ]+::(\w+)\(\)'", msg) and re.search(r"^\s*\w+\{\},?\s*$", line):
+            return {"cause": "allocator-not-default-constructible", "detail": "fixed-array-of-composites-value-initialised", "scope": ("std",)}
     if target == "cpp" and "no matching function for call to 'operator new(" in msg:
         return {"cause": "missing-include", "detail": "<new>", "scope": ("omit",), "neutralise": [("-include", "new")]}
     m = re.search(r"'(\w+)' in namespace '([\w:]+)' does not name a type|'(\w+)' is not a member of '([\w:]+)'", msg)
@@ -904,7 +924,9 @@ def stage1(u: dict, cfg: dict, udir: pathlib.Path, layout: str) -> dict:
 def stage2(u: dict, cfg: dict, udir: pathlib.Path, s1: dict, job: dict, names) -> typing.Tuple[typing.List[dict], dict]:
     gen = s1["gen"]
     if job["kind"] == "cc":
-        return check_header(cfg, job["mode"], gen["outdirs"], job["hdr"], names), {"cc.compiles": 1}
+        fs = check_header(cfg, job["mode"], gen["outdirs"], job["hdr"], names)
+        inconclusive = [f for f in fs if f["cause"] == "standin-inconclusive"]
+        return [f for f in fs if f["cause"] != "standin-inconclusive"], {"cc.compiles": 1, "standin.inconclusive": len(inconclusive)}
 
     def support_provider() -> typing.Optional[str]:
         d = udir / "out" / "py-support-only"
@@ -1372,7 +1394,9 @@ def run(ctx: core.Ctx):
     ctx.assumptions = [
         "gcc/g++ 12 are the deciding compilers; flags = diagnostic options parsed from verification/cmake/compiler_flag_sets/common.cmake "
         f"of the tree under test (C: {' '.join(cflags)}; C++ adds {' '.join(x for x in cxxflags if x not in cflags)}), strict -std=c11/c++NN",
-        "cetl++14-17 flavour: generation and include closure only (submodules/CETL is empty, the CETL headers are external by design)",
+        "cetl++14-17 flavour: submodules/CETL is empty; the headers are compiled as C++14 against a stand-in (harness/standin/cetl: vector-like "
+        "container constructed from (max size, allocator), allocator template without default constructor -- exactly what the options of the "
+        "shorthand state); diagnostics located inside the stand-in are counted as inconclusive (standin.inconclusive), never reported",
         "Python: fresh state per module = fork of an interpreter (-I -S) that has loaded only numpy 2.x and pydsdl; DeprecationWarning-family "
         "warnings (NumPy-2 / CPython deprecations) are counted as information, not violations",
         "names folding onto one identifier are excluded by the generator (dsdlgen.fold); the stdlib-macro name class is explored "
@@ -1442,7 +1466,7 @@ def run(ctx: core.Ctx):
     ctx.extra["flags"] = {"c": cflags, "cxx": cxxflags}
     # generator completeness (cases = universe x configuration x mode: 16 per universe)
     k = 1 if ctx.quick else 8
-    for c in ("cfg.c.as-c11", "cfg.c.in-c++14-tu", "cfg.cpp.as-c++14", "cfg.cpp.as-c++17", "cfg.cpp.as-c++20", "cfg.cpp.as-c++17-pmr", "cfg.cpp.generate-only", "cfg.py.import"):
+    for c in ("cfg.c.as-c11", "cfg.c.in-c++14-tu", "cfg.cpp.as-c++14", "cfg.cpp.as-c++17", "cfg.cpp.as-c++20", "cfg.cpp.as-c++17-pmr", "cfg.cpp.as-c++14-with-cetl-stand-in", "cfg.py.import"):
         ctx.require(c, 20 * k)
     for c in ("cfg.c.omit", "cfg.c.ser", "cfg.cpp.omit", "cfg.cpp.ser"):
         ctx.require(c, 20 * k)
